@@ -107,6 +107,17 @@ CLAIMS["C20"] = (
     "structural necessary condition for the former and was added after seed C20-b was known.",
     "DESIGN.md 4/C20")
 
+CLAIMS["C16"] = (
+    "R-COVER over the command table and enum, dead-disjunct and family-predicate check of the make dispatch, predicate agreement between tool and library argument checks, "
+    "sibling agreement of the output mapping, closed-form offset comparison for the Fourier coefficient layout",
+    "Static rule discharge on the tasgrid wrapper: the command table has unique keys and covers every command, every command is dispatched; no alternative of the make dispatch is "
+    "dead and each grid family is selected for -makequadrature by its own rule predicate; the tool rejects exactly the argument ranges the library rejects for the forwarded options; "
+    "all sites mapping 'all outputs' to output 0 do so for Global grids only; the imaginary block of Fourier coefficients is read at the offset the library writes it. "
+    "One genuine violation (duplicate -sc) is a listed known finding.",
+    "Equivalence of tool output and API results on command scripts needs execution and is not decided; the option parser in tasgrid_main.cpp is not analysed (it is a chain of "
+    "string comparisons feeding setters). D4 and D5 were written after seeds C16-a/b were known.",
+    "DESIGN.md 4/C16")
+
 PENDING = {}
 
 NOT_APPLICABLE = {}
